@@ -8,9 +8,12 @@ CHECKS = {
  'C15': dict(
     category='other', design_ref='DESIGN.md 5/C15',
     technique='abstract interpretation over LLVM IR (linear-inequality domain, contracts), IR dataflow rules',
-    text='Static proof obligations: every sline operation keeps 0 <= cursor <= len < cap and every buffer access '
-         'in bounds (abstract interpretation); decides the bounds clauses of the property for all capacities and '
-         'all states, not the equality with a reference editor / VT100 screen.',
+    text='Static proof obligations: every sline operation keeps 0 <= cursor <= len < cap with every buffer access in bounds and '
+         'its closed-form effect (all capacities, all states); the readline key automaton (C and C++ twin) obeys one per-(state, '
+         'key class) table - insert/refuse (a refused character is not echoed), backspace, arrows, delete, escape sequences, '
+         'CR/LF pairing - and keeps the line invariant; history index arithmetic and slot copies stay inside the history buffer '
+         '(capacity instantiated at 16); vt100_left fits its 16-byte buffer. Equality with a reference editor over key '
+         'sequences and VT100 screen equivalence are not decided.',
     note='Trusted: clang lowering to IR, irdump, the interpreter (checks/absint.py, lin.py) and the contract '
          'in checks/common.py (SLINE). Undecided: reference-editor equality, screen equivalence, history order.'),
 }
